@@ -99,7 +99,7 @@ Section Spell.
     destruct (take_while (d_custom_op d) x) as [ops r] eqn:E. apply take_while_app in E. subst x.
     destruct ops as [|o ops].
     - cbn. exists prefix. split; [reflexivity|exact Hf].
-    - cbn. exists (prefix ++ o :: ops). split; [rewrite app_assoc; reflexivity|apply str_eqb_refl].
+    - cbn. exists (prefix ++ o :: ops). split; [repeat rewrite <- app_assoc; reflexivity|apply str_eqb_refl].
   Qed.
 
   (** comments *)
@@ -108,7 +108,7 @@ Section Spell.
     intros ->. unfold line_comment_tok, lift, line_comment.
     destruct (take_while (fun ch => negb (ch =? cLF)) x) as [c r] eqn:E. apply take_while_app in E. subst x.
     destruct r as [|ch r'].
-    - cbn. exists (prefix ++ c). split; [rewrite app_nil_r; reflexivity|apply str_eqb_refl].
+    - cbn. exists (prefix ++ c). split; [rewrite !app_nil_r; reflexivity|apply str_eqb_refl].
     - destruct (ch =? cLF) eqn:El; [|exact I]. cbn. exists (prefix ++ c ++ [ch]). split.
       + rewrite <- !app_assoc. reflexivity.
       + apply str_eqb_refl.
@@ -146,4 +146,205 @@ Section Spell.
     - rewrite Hl. rewrite <- !app_assoc. reflexivity.
     - rewrite Hs, removelast_last. rewrite <- !app_assoc. apply str_eqb_refl.
   Qed.
+
+  (** numbers *)
+  Lemma num_period_app s0 r0 s1 r1 : num_period s0 r0 = (s1, r1) -> s0 ++ r0 = s1 ++ r1.
+  Proof. unfold num_period. destruct r0 as [|c r]; [intros [= <- <-]; reflexivity|].
+    destruct (c =? cDOT) eqn:E; intros [= <- <-]; [|reflexivity].
+    apply N.eqb_eq in E. subst. rewrite <- app_assoc. reflexivity. Qed.
+  Lemma num_sign_app ra sg rb : num_sign ra = (sg, rb) -> ra = sg ++ rb.
+  Proof. unfold num_sign. destruct ra as [|c r]; [intros [= <- <-]; reflexivity|].
+    destruct ((c =? cPLUS) || (c =? cMINUS)); intros [= <- <-]; reflexivity. Qed.
+  Lemma num_exponent_app s2 r2 s3 r3 b : num_exponent s2 r2 = (s3, r3, b) -> s2 ++ r2 = s3 ++ r3.
+  Proof.
+    unfold num_exponent. destruct r2 as [|e ra]; [intros [= <- <- _]; reflexivity|].
+    destruct ((e =? 101) || (e =? 69)); [|intros [= <- <- _]; reflexivity].
+    destruct (num_sign ra) as [sign rb] eqn:Es. apply num_sign_app in Es.
+    destruct rb as [|dg rb']; [intros [= <- <- _]; reflexivity|].
+    destruct (is_digit dg); [|intros [= <- <- _]; reflexivity].
+    destruct (take_while is_digit (dg :: rb')) as [ds rc] eqn:Ed. apply take_while_app in Ed.
+    intros [= <- <- _]. rewrite Es, Ed. repeat rewrite <- app_assoc. cbn [app]. repeat rewrite <- app_assoc. reflexivity.
+  Qed.
+  Lemma num_tail_spell s3 r3 b t r : num_tail d s3 r3 b = (t, r) ->
+    exists c, s3 ++ r3 = c ++ r /\ spellb u t c = true.
+  Proof.
+    unfold num_tail.
+    assert (Hnum : forall t r, (match r3 with
+                   | c :: r4 => if c =? 76 then (TNumber s3 true, r4) else (TNumber s3 false, r3)
+                   | [] => (TNumber s3 false, r3) end) = (t, r) ->
+                   exists c, s3 ++ r3 = c ++ r /\ spellb u t c = true).
+    { intros t0 r0. destruct r3 as [|c r4].
+      - intros [= <- <-]. exists s3. split; [reflexivity|]. cbn. rewrite app_nil_r. apply str_eqb_refl.
+      - destruct (c =? 76) eqn:E; intros [= <- <-].
+        + apply N.eqb_eq in E. subst. exists (s3 ++ [76]). split; [rewrite <- app_assoc; reflexivity|].
+          cbn. apply str_eqb_refl.
+        + exists s3. split; [reflexivity|]. cbn. rewrite app_nil_r. apply str_eqb_refl. }
+    destruct (d_numeric_prefix d && negb b); [|apply Hnum].
+    destruct (take_while (d_ident_part d) r3) as [w r4] eqn:E4. pose proof (take_while_app _ _ _ _ E4) as A4.
+    destruct w as [|w0 w]; [apply Hnum|].
+    intros [= <- <-]. exists (s3 ++ w0 :: w). split; [rewrite A4, <- app_assoc; reflexivity|].
+    cbn. apply str_eqb_refl.
+  Qed.
+
+  Lemma number_spell l t r : number d l = (t, r) -> exists c, l = c ++ r /\ spellb u t c = true.
+  Proof.
+    unfold number. destruct (take_while is_digit l) as [s0 r0] eqn:E0. apply take_while_app in E0.
+    destruct (num_hex_prefix s0 r0) as [rx|] eqn:Eh.
+    { unfold num_hex_prefix in Eh. destruct (str_eqb s0 [48]) eqn:Es; [|discriminate].
+      apply str_eqb_eq in Es. destruct r0 as [|c r0']; [discriminate|].
+      destruct (c =? 120) eqn:Ec; [|discriminate]. apply N.eqb_eq in Ec. inversion Eh; subst.
+      destruct (take_while is_hexdigit rx) as [h r'] eqn:E. apply take_while_app in E. intros [= <- <-].
+      exists ([48; 120] ++ h). split; [rewrite E; reflexivity|reflexivity]. }
+    destruct (num_period s0 r0) as [s1 r1] eqn:E1. apply num_period_app in E1.
+    destruct (take_while is_digit r1) as [s2d r2] eqn:E2. apply take_while_app in E2. cbv zeta.
+    assert (Hl : l = (s1 ++ s2d) ++ r2).
+    { rewrite E0, E1, E2. rewrite <- app_assoc. reflexivity. }
+    destruct (str_eqb (s1 ++ s2d) [cDOT]) eqn:Ed.
+    { apply str_eqb_eq in Ed. intros [= <- <-]. exists [cDOT]. split; [rewrite Hl, Ed; reflexivity|reflexivity]. }
+    destruct (num_exponent (s1 ++ s2d) r2) as [[s3 r3] b] eqn:E3. apply num_exponent_app in E3.
+    intro H. destruct (num_tail_spell _ _ _ _ _ H) as (c & Hc & Hs).
+    exists c. split; [|exact Hs]. rewrite Hl, E3. exact Hc.
+  Qed.
+
+  (** tokens whose spelling is handled elsewhere (quoted kinds): any split will do *)
+  Lemma Sp_suffix l t r : Suffix r l -> spellb u t [] = true -> (forall c, spellb u t c = spellb u t []) ->
+    Sp u l (ret t r).
+  Proof. intros [c ->] H0 Hc. exists c. split; [reflexivity|]. rewrite Hc. exact H0. Qed.
+
+  Lemma Sp_sq_lift q bs k x l : Suffix x l ->
+    Sp u l (lift (single_quoted unesc q bs x) (fun '(s, r') => ret (TStr k s) r')).
+  Proof. intro Hx. unfold lift. destruct (single_quoted unesc q bs x) as [[s r']|e a|w] eqn:E; try exact I.
+    apply single_quoted_suffix, SSuffix_Suffix in E. apply Sp_suffix; auto.
+    eapply Suffix_trans; eauto. Qed.
+  Lemma Sp_sot_lift q bs k1 k3 x l : Suffix x l ->
+    Sp u l (lift (single_or_triple unesc q bs k1 k3 x) (fun y => retp y)).
+  Proof. intro Hx. unfold lift. destruct (single_or_triple unesc q bs k1 k3 x) as [[t r']|e a|w] eqn:E; try exact I.
+    pose proof (SSuffix_Suffix _ _ (single_or_triple_suffix _ _ _ _ _ _ _ _ E)) as Hs.
+    assert (Ht : exists k s, t = TStr k s).
+    { revert E. unfold single_or_triple. destruct x as [|c1 r1]; [discriminate|]. destruct (c1 =? q); [|discriminate].
+      destruct r1 as [|c2 r2].
+      { destruct (qs_loop _ _ _ _ _ _) as [[s0 r0]|]; [|discriminate]. intros [= <- _]. eauto. }
+      destruct (c2 =? q).
+      - destruct r2 as [|c3 r3]; [intros [= <- _]; eauto|]. destruct (c3 =? q); [|intros [= <- _]; eauto].
+        destruct (qs_loop _ _ _ _ _ _) as [[s0 r0]|]; [|discriminate]. intros [= <- _]. eauto.
+      - destruct (qs_loop _ _ _ _ _ _) as [[s0 r0]|]; [|discriminate]. intros [= <- _]. eauto. }
+    destruct Ht as (k & s & ->). unfold retp. apply (Sp_suffix l (TStr k s) r'); auto.
+    eapply Suffix_trans; eauto. Qed.
+
+  Lemma Sp_dollar l : l <> [] -> hd 0 l = cDOLLAR -> Sp u l (lift (dollar_value u l) (fun y => retp y)).
+  Proof.
+    intros Hl Hd. unfold lift. pose proof (dollar_value_spec u l) as Hs.
+    destruct (dollar_value u l) as [[t r']|e a|w] eqn:E; try exact I.
+    destruct l as [|ch l1]; [congruence|]. cbn [hd] in Hd. subst ch. cbn [tl] in Hs.
+    revert E. unfold dollar_value. cbn [tl].
+    destruct l1 as [|c l2]; [intros [= <- <-]; exists [cDOLLAR]; split; reflexivity|].
+    destruct (c =? cDOLLAR).
+    { destruct (dq_loop None l2) as [[s r]|]; [|discriminate]. intros [= <- <-].
+      unfold retp. apply Sp_suffix; auto. apply Suffix_cons. exact Hs. }
+    destruct (take_while _ (c :: l2)) as [value l3] eqn:Ev. pose proof (take_while_app _ _ _ _ Ev) as Av.
+    assert (Hp : forall t0 r0, Ok (TPlaceholder (cDOLLAR :: value), l3) = Ok (t0, r0) ->
+                 Sp u (cDOLLAR :: c :: l2) (retp (t0, r0))).
+    { intros t0 r0 [= <- <-]. exists (cDOLLAR :: value). split; [rewrite Av; reflexivity|]. cbn. apply str_eqb_refl. }
+    destruct l3 as [|c3 l4]; [apply Hp|]. destruct (c3 =? cDOLLAR); [|apply Hp].
+    destruct (tagged_loop _ _ _) as [[s r]|e a|w]; try discriminate. intros [= <- <-].
+    unfold retp. apply Sp_suffix; auto. apply Suffix_cons. exact Hs.
+  Qed.
+
+  Lemma Sp_uni l f x : Suffix x l -> (length x < f)%nat ->
+    Sp u l (lift (uni_loop f x) (fun '(s, r') => ret (TStr KUnicode s) r')).
+  Proof. intros Hx Hf. unfold lift. pose proof (uni_loop_suffix f x) as H.
+    destruct (uni_loop f x) as [[s r']|e a|w]; try exact I.
+    apply Sp_suffix; auto. eapply Suffix_trans; eauto. Qed.
+
+  Lemma Sp_esc l f x : Suffix x l ->
+    Sp u l (match esc_loop f x with
+            | Some (s, r') => ret (TStr KEscaped s) r'
+            | None => Err EUnterminatedEncoded l end).
+  Proof. intro Hx. destruct (esc_loop f x) as [[s r']|] eqn:E; [|exact I].
+    apply esc_loop_suffix in E. apply Sp_suffix; auto. eapply Suffix_trans; eauto. Qed.
+
+  Lemma Sp_delim ch r :
+    Sp u (ch :: r) (match matching_end_quote ch with
+                    | Some qe => match quoted_ident unesc qe r with
+                                 | Some (s, r') => ret (TWord s (Some ch)) r'
+                                 | None => Err (EExpectedClose qe) (ch :: r) end
+                    | None => Panic 1 end).
+  Proof. destruct (matching_end_quote ch) as [qe|]; [|exact I].
+    destruct (quoted_ident unesc qe r) as [[s r']|] eqn:E; [|exact I].
+    apply quoted_ident_suffix in E. apply Sp_suffix; auto with sfx. Qed.
+
+  Lemma Sp_number l : Sp u l (retp (number d l)).
+  Proof. destruct (number d l) as [t r] eqn:E. apply number_spell in E. exact E. Qed.
+
+  Lemma Sp_qm r : Sp u (cQM :: r) (let '(s, r') := take_while (u_numeric u) r in ret (TPlaceholder (cQM :: s)) r').
+  Proof. destruct (take_while (u_numeric u) r) as [s r'] eqn:E. apply take_while_app in E. subst r.
+    exists (cQM :: s). split; [reflexivity|]. cbn. apply str_eqb_refl. Qed.
+
+  Ltac split_ifs :=
+    repeat match goal with
+    | |- context [if ?b then _ else _] => destruct b eqn:?
+    end.
+  Ltac subst_eqb :=
+    repeat match goal with
+    | H : (?x =? ?k) = true |- _ => apply N.eqb_eq in H; try subst x
+    | H : (_ || _) = true |- _ => apply orb_true_iff in H; destruct H
+    | H : (_ && _) = true |- _ => apply andb_true_iff in H; destruct H
+    end.
+  Ltac witness :=
+    unfold ret, retp, Sp;
+    match goal with
+    | |- exists c, ?a :: ?x = c ++ ?x /\ _ => exists [a]
+    | |- exists c, ?a :: ?b :: ?x = c ++ ?x /\ _ => exists [a; b]
+    | |- exists c, ?a :: ?b :: ?c0 :: ?x = c ++ ?x /\ _ => exists [a; b; c0]
+    | |- exists c, ?a :: ?b :: ?c0 :: ?e :: ?x = c ++ ?x /\ _ => exists [a; b; c0; e]
+    end; split; [reflexivity|].
+  Ltac spell_goal :=
+    cbn [spellb fix_spellings existsb];
+    first [ reflexivity
+          | match goal with H : u_whitespace u ?c = true |- _ => rewrite H; apply orb_true_r end
+          | apply str_eqb_refl ].
+
+  Theorem next_token_spell l : Sp u l (next_token d u unesc l).
+  Proof.
+    destruct l as [|ch r]; [exact I|].
+    assert (Hgen : forall rr, r = rr -> Sp u (ch :: rr) (next_token d u unesc (ch :: rr))); [|apply Hgen; reflexivity].
+    intros rr _. clear r.
+    destruct rr as [|c2 [|c3 [|c4 r]]]; unfold next_token; cbn [peek_is tl andb orb negb];
+      split_ifs; subst_eqb;
+      try solve [exfalso; match goal with H : _ = true |- _ => cbn [andb orb negb] in H; discriminate end];
+      try solve [witness; spell_goal];
+      try solve [apply Sp_word];
+      try solve [apply Sp_sq_lift; auto 6 with sfx];
+      try solve [apply Sp_sot_lift; auto 6 with sfx];
+      try solve [apply Sp_line; reflexivity];
+      try solve [apply Sp_block; reflexivity];
+      try solve [apply Sp_dollar; [discriminate|reflexivity]];
+      try solve [unfold consume_for_binop; cbn [tl]; apply Sp_binop; [reflexivity|reflexivity]];
+      try solve [eapply Sp_ident; [reflexivity|reflexivity|discriminate]];
+      try solve [apply Sp_uni; [auto 6 with sfx|cbn [length]; lia]];
+      try solve [apply Sp_esc; auto 6 with sfx];
+      try solve [apply Sp_delim];
+      try solve [apply Sp_number];
+      try solve [apply Sp_qm].
+  Qed.
 End Spell.
+
+(** Stream level: every token of a successful run spells exactly the chunk of input between
+    its position and the next token's position. *)
+Require Import SqlV.LexerTiling.
+Theorem lex_spell d u unesc s ts : tokenize d u unesc s = LexOk ts ->
+  exists cs, concat cs = s /\ length cs = length ts /\
+    forall i t q, nth_error ts i = Some (t, q) -> spellb u t (nth i cs []) = true.
+Proof.
+  intro H. destruct (lex_tiles d u unesc s ts H) as (cs & Hc & Hl & Hn & Hi).
+  exists cs. repeat split; auto. intros i t q Hnth.
+  destruct (Hi i t q Hnth) as (_ & Hnext).
+  pose proof (next_token_spell d u unesc (concat (skipn i cs))) as Hs. rewrite Hnext in Hs.
+  destruct Hs as (c & Hcat & Hsp).
+  assert (Hi' : (i < length cs)%nat).
+  { rewrite Hl. apply nth_error_Some. congruence. }
+  assert (Hsk : skipn i cs = nth i cs [] :: skipn (S i) cs).
+  { clear -Hi'. revert i Hi'. induction cs as [|x cs IH]; intros i Hi; [cbn in Hi; lia|].
+    destruct i as [|i]; [reflexivity|]. cbn [skipn nth]. apply IH. cbn [length] in Hi. lia. }
+  rewrite Hsk in Hcat. cbn [concat] in Hcat. apply app_inv_tail in Hcat. rewrite Hcat. exact Hsp.
+Qed.
